@@ -119,24 +119,32 @@ def run_replay(prop_id, path, tier='quick'):
 
 
 def check_known(prop_id):
-    """re-run the witness of every recorded finding of this property; print KNOWN-FINDING lines"""
+    """re-run the witness of every recorded finding of this property.
+    finding still failing -> KNOWN-FINDING line; fixed entry failing again -> regression (VIOLATION)"""
     lines = []
     stale = []
+    regressions = []
     for e in load_known():
-        if e.get('status') != 'finding' or prop_id not in e.get('properties', [e.get('property')]):
+        if prop_id not in e.get('properties', []):
             continue
         w = os.path.join(VERIF, e['witness'])
-        env = dict(os.environ)
-        r = subprocess.run([sys.executable, '-m', 'verifsim.runner', prop_id, '--replay', w], env=env, cwd=VERIF,
-                           capture_output=True, text=True, timeout=300)
-        if r.returncode == 1:
-            lines.append(f'KNOWN-FINDING: property={prop_id} {e["what"]} (witness {e["witness"]}, '
-                         f'carve-out {e.get("carve_out")})')
-        elif r.returncode == 0:
-            stale.append(e['id'])
-        else:
+        with open(w) as f:
+            wprop = json.load(f).get('property')
+        if wprop != prop_id:
+            continue
+        r = subprocess.run([sys.executable, '-m', 'verifsim.runner', prop_id, '--replay', w], env=dict(os.environ),
+                           cwd=VERIF, capture_output=True, text=True, timeout=300)
+        if r.returncode not in (0, 1):
             raise RuntimeError(f'witness replay failed: {r.stdout}\n{r.stderr}')
-    return lines, stale
+        if e.get('status') == 'finding':
+            if r.returncode == 1:
+                lines.append(f'KNOWN-FINDING: property={prop_id} {e["id"]} {e["what"]} (witness {e["witness"]}; '
+                             f'carve-out: {e.get("carve_out")})')
+            else:
+                stale.append(e['id'])
+        elif r.returncode == 1:
+            regressions.append((e, w))
+    return lines, stale, regressions
 
 
 # ---------------------------------------------------------------------------------------------
@@ -150,7 +158,7 @@ def orchestrate(prop_id, tier, seed):
         cfg['budget'] = float(os.environ['VERIF_BUDGET_S'])
     prop = P.get_prop(prop_id, tier)
     cfg['budget'] *= getattr(prop, 'budget_scale', 1.0)
-    known_lines, stale = check_known(prop_id)
+    known_lines, stale, regressions = check_known(prop_id)
     tmp = tempfile.mkdtemp(prefix=f'verif_{prop_id}_')
     procs = []
     try:
@@ -206,7 +214,8 @@ def orchestrate(prop_id, tier, seed):
             paths.append(path)
     wall = time.time() - t0
     if results:
-        write_evidence(prop, tier, seed, results, violations, wall, known_lines, harness_errors)
+        write_evidence(prop, tier, seed, results, violations + [r[0] for r in regressions], wall, known_lines,
+                       harness_errors)
     for line in known_lines:
         print(line)
     for s in stale:
@@ -222,7 +231,10 @@ def orchestrate(prop_id, tier, seed):
     for v, path in zip(violations, paths):
         print(f'VIOLATION property={prop_id} replay={path}')
         print(f'  clause={v["clause"]} detail={v["detail"][:300]}')
-    return 1 if violations else 0
+    for e, w in regressions:
+        print(f'VIOLATION property={prop_id} replay={w}')
+        print(f'  regression of repaired defect {e["id"]} ({e.get("commit")}): {e["what"]}')
+    return 1 if (violations or regressions) else 0
 
 
 def main(argv=None):
